@@ -17,7 +17,7 @@ def layouts():
 def configs(ctx):
     fwd, inv, opt = [], [], []
     B, Q = 'near_sym_a', 'qshift_a'
-    H, W, J = 6, 12, 2
+    H, W, J = 6, 10, 2          # neither size equals 2 x 6 orientations: a confused axis cannot pass by coincidence
     for (o, r) in layouts():
         spell = [(o, r), (o - 6, r - 6), (o, r - 6), (o - 6, r)]
         if ctx.quick:
